@@ -27,8 +27,8 @@ def sh(cmd, cwd=None, timeout=3600, env=None):
 def confirm(seed, tag):
     wt = "/tmp/seedwt-%s-%d" % (tag, os.getpid())
     res = {}
-    sh("git -C /repo worktree remove --force %s" % wt)
-    rc, out = sh("git -C /repo worktree add --detach %s HEAD -q" % wt)
+    sh("git -C /tmp/repo-frozen worktree remove --force %s" % wt)
+    rc, out = sh("git -C /tmp/repo-frozen worktree add --detach %s HEAD -q" % wt)
     if rc != 0:
         return {"error": "worktree: " + out}
     try:
@@ -54,7 +54,7 @@ def confirm(seed, tag):
         rc, out = sh("git diff --stat", cwd=wt)
         res["touches"] = out.strip()
     finally:
-        sh("git -C /repo worktree remove --force %s" % wt)
+        sh("git -C /tmp/repo-frozen worktree remove --force %s" % wt)
         shutil.rmtree(wt, ignore_errors=True)
     res["confirmed"] = all(res.get(k) for k in ("demo_without_patch_passes", "applies", "builds", "suite_passes_with_patch", "demo_with_patch_fails"))
     return res
@@ -67,7 +67,7 @@ def run_check(seed, pid, tier, base, tag):
     res = {"property": pid, "tier": tier}
     try:
         sh("rsync -a --exclude .git --exclude work --exclude replays --exclude evidence %s/ %s/verif/" % (base, d))
-        sh("rsync -a /repo/ %s/repo/" % d)
+        sh("rsync -a /tmp/repo-frozen/ %s/repo/" % d)
         os.makedirs(d + "/verif/evidence", exist_ok=True)
         rc, out = sh("git apply %s" % os.path.join(seed, "patch.diff"), cwd=d + "/repo")
         if rc != 0:
